@@ -7,7 +7,7 @@ import z3
 from sx import core as S, env as E, npshim
 
 PROPERTY = "C19"
-REGIONS = ["no-rows", "points-dtype-unsigned", "points-dtype-signed-narrow", "edited-in-place-between-calls", "ndim1", "ndim2", "ndim3", "symbolic-matrix", "concrete-matrix", "satisfied-true", "satisfied-false"]
+REGIONS = ["bulk-group", "no-rows", "points-dtype-unsigned", "points-dtype-signed-narrow", "edited-in-place-between-calls", "ndim1", "ndim2", "ndim3", "symbolic-matrix", "concrete-matrix", "satisfied-true", "satisfied-false"]
 BOUNDS = ("rows<=3, columns<=3, points per group<=3, groups<=2; fully symbolic matrix entries, right-hand sides and coordinates with |.|<=20 "
           "for shapes up to 2x2 with <=2 points (products are symbolic x symbolic: QF_NIA, but oracle and code share the same product terms); "
           "larger shapes use concrete matrices over {-2..2} with symbolic b and symbolic points")
@@ -58,6 +58,10 @@ def instantiations(tier, seed):
     for nd in (1, 2, 3):
         for fn in FUNS:
             out.append({"rows": 0, "cols": 2, "ndim": nd, "npts": 1 if nd == 1 else 2, "ngroups": 2 if nd == 3 else 1, "fn": fn, "A": None})
+    # bulk input: groups of thousands of points (sizes around powers of two), the interesting points at the very end of the group
+    for k, n_ in enumerate([2049] if tier == "quick" else [1023, 1025, 2047, 2049, 2500, 4097, 8193]):
+        for fn in FUNS:
+            out.append({"rows": 2, "cols": 2, "ndim": 2 + (k + FUNS.index(fn)) % 2, "npts": n_, "ngroups": 1, "fn": fn, "A": [[1, 1], [-1, -2]], "bulk": True})
     for mu in ("all_as_any", "ge_as_gt"):
         out.append({"kind": "mutant", "mutant": mu, "rows": 2, "cols": 2, "ndim": 2, "npts": 2, "ngroups": 1, "fn": "ineqs_satisfied", "A": None})
     return out
@@ -76,7 +80,12 @@ def run_inst(spec, run):
                 A = [[S.K(v) for v in row] for row in spec["A"]]
             b = [ctx.int("b%d" % i, -20, 20) for i in range(r)]
             plo, phi = (0, 20) if str(spec.get("pdtype", "")).startswith("u") else (-20, 20)
-            pts = [[[ctx.int("p%d_%d_%d" % (g, k, j), plo, phi) for j in range(c)] for k in range(npts)] for g in range(ng)]
+            if spec.get("bulk"):
+                # a large group: many copies of one symbolic point followed by two other symbolic points (only the tail can differ)
+                base = [[ctx.int("p0_%d_%d" % (k, j), plo, phi) for j in range(c)] for k in range(3)]
+                pts = [[base[0]] * (npts - 2) + [base[1], base[2]] for g in range(ng)]
+            else:
+                pts = [[[ctx.int("p%d_%d_%d" % (g, k, j), plo, phi) for j in range(c)] for k in range(npts)] for g in range(ng)]
             M = npshim.obj_matrix([[b[i]] + A[i] for i in range(r)]) if r else np.empty((0, c + 1), dtype=object)
             P = ns.pnd.ge_polyhedron(M)
             if nd == 1:
@@ -120,6 +129,8 @@ def run_inst(spec, run):
             run.region("ndim%d" % nd)
             if r == 0:
                 run.region("no-rows")
+            if spec.get("bulk"):
+                run.region("bulk-group")
             if spec.get("pdtype"):
                 run.region("points-dtype-" + ("unsigned" if spec["pdtype"].startswith("u") else "signed-narrow"))
             if spec.get("edit"):
@@ -137,6 +148,7 @@ def run_inst(spec, run):
                 return z3.Or(fs) if mu == "all_as_any" else z3.And(fs)
             res = np.asarray(rs["res"])
             viol = []
+            seen = set()
             shape_ok = True
             if spec["fn"] in ("ineqs_satisfied", "separable"):
                 want_shape = {1: (), 2: (npts,), 3: (ng, npts)}[nd]
@@ -151,6 +163,10 @@ def run_inst(spec, run):
                                 run.region("satisfied-true" if spec["fn"] == "ineqs_satisfied" else "satisfied-false")
                             else:
                                 run.region("satisfied-false" if spec["fn"] == "ineqs_satisfied" else "satisfied-true")
+                            key_ = (id(pts[g][k]), got)
+                            if key_ in seen:          # the same point object with the same answer: the same obligation
+                                continue
+                            seen.add(key_)
                             exp = sat(pts[g][k]) if spec["fn"] == "ineqs_satisfied" else z3.Not(sat(pts[g][k]))
                             viol.append(exp != z3.BoolVal(got))
             else:
@@ -161,7 +177,8 @@ def run_inst(spec, run):
                     for g in range(ng):
                         for i in range(r):
                             got = bool(res[i] if nd < 3 else res[g, i])
-                            exp = z3.Or([z3.Not(rowok(i, p)) for p in pts[g]])
+                            uniq = list({id(p): p for p in pts[g]}.values())
+                            exp = z3.Or([z3.Not(rowok(i, p)) for p in uniq])
                             viol.append(exp != z3.BoolVal(got))
             if not shape_ok:
                 run.obligation(ctx, "output-shape", True, conc, extra="shape %s" % (res.shape,))
